@@ -14,18 +14,18 @@ SCR = '/tmp/mutrepo'
 BUILD = '/tmp/mutbuild'
 ENV = dict(os.environ, CARGO_NET_OFFLINE='true', CARGO_TARGET_DIR=SCR + '-target')
 CHECKS = {
-    'tokenizer.rs': ['C07', 'C08'],
-    'element_parser.rs': ['C09', 'C06'],
+    'tokenizer.rs': ['C07', 'C08', 'C01'],
+    'element_parser.rs': ['C09', 'C06', 'C01'],
     'parser.rs': ['C10', 'C04'],
-    'code/remover.rs': ['C03', 'C02', 'C17', 'C11'],
+    'code/remover.rs': ['C03', 'C02', 'C17', 'C11', 'C12', 'C01'],
     'code/remover/marker/builder/unwrap_block_marker_builder.rs': ['C11', 'C19', 'C03'],
     'code/remover/marker/builder/range_marker_builder.rs': ['C03', 'C02'],
     'code/remover/marker/availability/unwrap_block_marker_availability.rs': ['C11', 'C06'],
     'code/remover/marker/factory.rs': ['C11', 'C03'],
     'code/remover/removal_evaluator/marker_evaluator.rs': ['C06'],
     'code/remover/removal_evaluator/time_limited_evaluator.rs': ['C05'],
-    'code/formatter.rs': ['C14', 'C13', 'C12'],
-    'code/formatter/block_indent_remover.rs': ['C12', 'C14'],
+    'code/formatter.rs': ['C14', 'C13', 'C12', 'C01'],
+    'code/formatter/block_indent_remover.rs': ['C12', 'C14', 'C01'],
     'code/formatter/empty_line_remover.rs': ['C13', 'C14'],
     'code/formatter/indent_remover.rs': ['C13', 'C14'],
     'code/formatter/next_line_break_remover.rs': ['C13', 'C14'],
@@ -34,7 +34,7 @@ CHECKS = {
     'code/utils/char_pos_finder.rs': ['C12', 'C14'],
     'code/utils/line_map.rs': ['C16', 'C15'],
     'code/utils/blank_counter.rs': ['C16'],
-    'code/list.rs': ['C16', 'C15', 'C17'],
+    'code/list.rs': ['C16', 'C15', 'C17', 'C01'],
     'chiritori.rs': ['C18', 'C15', 'C03'],
 }
 RULES = [
@@ -116,7 +116,7 @@ def main():
                 env = dict(os.environ, VERIF_REPO=SCR, VERIF_BUILD=BUILD, VERIF_WORKERS='8')
                 rec['checks'] = {}
                 for c in CHECKS[f]:
-                    rc, o = sh(f'./check {c} --tier quick 2>&1 | tail -4', cwd='/verif', env=env, timeout=900)
+                    rc, o = sh(f'./check {c} --tier quick > /tmp/sweep.last 2>&1', cwd='/verif', env=env, timeout=1200)
                     rec['checks'][c] = rc
                     if rc == 1:
                         break
